@@ -136,19 +136,66 @@ StaticSize(e, psize) ==
       [] e.k = "call" /\ e.f \in {"le", "sizeof"} /\ Len(e.args) = 1 -> StaticSize(e.args[1], psize)
       [] OTHER -> -1
 
-RECURSIVE MatchStaticSize(_, _)
-RECURSIVE ParamSizes(_, _, _, _)
-\* parameter name -> static size, for the parameters of match m
-ParamSizes(P, m, i, acc) ==
+\* An `asm { ... }` production: [k |-> "asm", lines], each line
+\* [k |-> "instr", toks] | [k |-> "label", name]; a token [k |-> "ph", s |-> p]
+\* stands for `{p}` and is replaced by the TEXT (tokens) of the argument bound
+\* to parameter p of the match; the first substituted token inherits the
+\* placeholder's spacing.
+ParIndex(P, m, name) ==
+    LET pars == SelectSeq(P.rules[m.r].pat, LAMBDA x : x.p = "par")
+        hit == {i \in 1..Len(pars) : pars[i].name = name}
+    IN IF hit = {} THEN 0 ELSE CHOOSE i \in hit : TRUE
+
+RECURSIVE SubstToks(_, _, _, _, _)
+\* [ok, toks]
+SubstToks(P, ctoks, m, ltoks, i) ==
+    IF i > Len(ltoks) THEN [ok |-> TRUE, toks |-> <<>>]
+    ELSE LET rest == SubstToks(P, ctoks, m, ltoks, i + 1) IN
+         IF ~rest.ok THEN rest
+         ELSE IF ltoks[i].k # "ph" THEN [ok |-> TRUE, toks |-> <<ltoks[i]>> \o rest.toks]
+         ELSE LET pi == ParIndex(P, m, ltoks[i].s) IN
+              IF pi = 0 THEN [ok |-> FALSE, toks |-> <<>>]            \* unknown substitution argument
+              ELSE LET span == SubSeq(ctoks, m.args[pi].from, m.args[pi].to - 1)
+                       first == [span[1] EXCEPT !.b = ltoks[i].b]
+                   IN [ok |-> TRUE, toks |-> <<first>> \o Tail(span) \o rest.toks]
+
+\* static sizes: >= 0 a size, -1 not syntactically evident, -2 macros nested beyond
+\* MaxMacroNest (a macro that reaches itself: the depth limit makes that an error)
+MaxMacroNest == 8
+RECURSIVE MatchStaticSizeD(_, _, _, _)
+RECURSIVE ParamSizes(_, _, _, _, _, _)
+RECURSIVE AsmStaticSize(_, _, _, _, _, _)
+\* parameter name -> static size, for the parameters of match m (toks: the line m matched)
+ParamSizes(P, toks, m, i, acc, dep) ==
     LET pars == SelectSeq(P.rules[m.r].pat, LAMBDA x : x.p = "par") IN
     IF i > Len(pars) THEN acc
     ELSE LET par == pars[i]
              sz == CASE par.ty \in {"u", "s", "i"} -> par.n
-                     [] par.ty = "sub" -> MatchStaticSize(P, m.args[i].m)
+                     [] par.ty = "sub" -> MatchStaticSizeD(P, toks, m.args[i].m, dep)
                      [] OTHER -> -1
-         IN ParamSizes(P, m, i + 1, [x \in DOMAIN acc \cup {par.name} |-> IF x = par.name THEN sz ELSE acc[x]])
+         IN ParamSizes(P, toks, m, i + 1, [x \in DOMAIN acc \cup {par.name} |-> IF x = par.name THEN sz ELSE acc[x]], dep)
 
-MatchStaticSize(P, m) == StaticSize(P.rules[m.r].prod, ParamSizes(P, m, 1, <<>>))
+\* an asm block's size is the sum of the sizes of its lines, each line size-static in itself
+AsmStaticSize(P, toks, m, lines, j, dep) ==
+    IF dep > MaxMacroNest THEN -2
+    ELSE IF j > Len(lines) THEN 0
+    ELSE IF lines[j].k = "label" THEN AsmStaticSize(P, toks, m, lines, j + 1, dep)
+    ELSE LET st == SubstToks(P, toks, m, lines[j].toks, 1) IN
+         IF ~st.ok THEN -1
+         ELSE LET cs == Match(P, st.toks)
+                  ss == {MatchStaticSizeD(P, st.toks, c, dep + 1) : c \in cs}
+              IN IF -2 \in ss THEN -2
+                 ELSE IF cs = {} \/ Cardinality(ss) # 1 THEN -1
+                 ELSE LET x == CHOOSE x \in ss : TRUE
+                          rest == AsmStaticSize(P, toks, m, lines, j + 1, dep)
+                      IN IF rest = -2 THEN -2 ELSE IF x < 0 \/ rest < 0 THEN -1 ELSE x + rest
+
+MatchStaticSizeD(P, toks, m, dep) ==
+    LET prod == P.rules[m.r].prod IN
+    IF prod.k = "asm" THEN AsmStaticSize(P, toks, m, prod.lines, 1, dep)
+    ELSE StaticSize(prod, ParamSizes(P, toks, m, 1, <<>>, dep))
+
+MatchStaticSize(P, toks, m) == MatchStaticSizeD(P, toks, m, 0)
 
 (***************************************************************************)
 (* CANDIDATE EVALUATION (resolver/instruction.rs).  env holds the visible  *)
@@ -164,33 +211,74 @@ Constrain(par, x) ==
                      [] OTHER -> ~CodedRejectsI(par.n, X.v)
          IN IF ok THEN IntV(X.v, par.n) ELSE FailedV
 
-RECURSIVE EvalCand(_, _, _)
-RECURSIVE BindArgs(_, _, _, _, _)
+RECURSIVE EvalCand(_, _, _, _)
+RECURSIVE BindArgs(_, _, _, _, _, _)
+RECURSIVE Encoding(_, _, _, _)
+RECURSIVE AsmLines(_, _, _, _, _, _, _, _)
 
 \* binds the parameters of match m (arguments evaluated in env, the caller's
 \* context); returns [ok, v (propagating value), loc (name -> value)]
-BindArgs(P, m, env, i, loc) ==
+BindArgs(P, toks, m, env, i, loc) ==
     LET pars == SelectSeq(P.rules[m.r].pat, LAMBDA x : x.p = "par") IN
     IF i > Len(pars) THEN [ok |-> TRUE, v |-> VoidV, loc |-> loc]
     ELSE LET par == pars[i]
              a == m.args[i]
-             raw == IF a.kind = "expr" THEN Eval(a.ast, env).v ELSE EvalCand(P, a.m, env)
+             raw == IF a.kind = "expr" THEN Eval(a.ast, env).v ELSE EvalCand(P, toks, a.m, env)
              x == IF a.kind = "expr" /\ ~Propagates(raw) THEN Constrain(par, raw) ELSE raw
          IN  IF Propagates(x) THEN [ok |-> FALSE, v |-> x, loc |-> loc]
-             ELSE BindArgs(P, m, env, i + 1, Bind(loc, par.name, x))
+             ELSE BindArgs(P, toks, m, env, i + 1, Bind(loc, par.name, x))
+
+\* the lines of an asm block, assembled in place: positions advance by the
+\* (static) size of each line; block labels are visible to every line
+AsmLabelEnv(P, toks, m, lines, env, base) ==
+    LET RECURSIVE Offs(_, _, _)
+        Offs(j, off, acc) ==
+            IF j > Len(lines) THEN acc
+            ELSE IF lines[j].k = "label" THEN Offs(j + 1, off, Bind(acc, lines[j].name, IntV((base + off) \div 8, -1)))
+            ELSE LET st == SubstToks(P, toks, m, lines[j].toks, 1)
+                     cs == IF st.ok THEN Match(P, st.toks) ELSE {}
+                     sz == IF cs = {} THEN 0 ELSE MatchStaticSize(P, st.toks, CHOOSE c \in cs : TRUE)
+                 IN Offs(j + 1, off + (IF sz < 0 THEN 0 ELSE sz), acc)
+    IN Offs(1, 0, <<>>)
+
+AsmLines(P, toks, m, lines, env, labels, j, acc) ==
+    IF j > Len(lines) THEN FromBits(acc)
+    ELSE IF lines[j].k = "label" THEN AsmLines(P, toks, m, lines, env, labels, j + 1, acc)
+    ELSE LET st == SubstToks(P, toks, m, lines[j].toks, 1) IN
+         IF ~st.ok THEN ErrV
+         ELSE LET cs == Match(P, st.toks) IN
+              IF cs = {} THEN ErrV
+              ELSE LET base == env["$"].v * 8
+                       here == (base + Len(acc)) \div 8
+                       inner == [x \in DOMAIN env \cup DOMAIN labels \cup {"#depth"} |->
+                                    IF x \in {"$", "pc"} THEN (IF (base + Len(acc)) % 8 = 0 THEN IntV(here, -1) ELSE ErrV)
+                                    ELSE IF x = "#depth" THEN IntV(DepthOf(env) + 1, -1)
+                                    ELSE IF x \in DOMAIN labels THEN labels[x] ELSE env[x]]
+                       e == Encoding(P, st.toks, cs, inner)
+                   IN IF e.t = "big" THEN BigV
+                      ELSE IF e.t # "ok" THEN ErrV
+                      ELSE AsmLines(P, toks, m, lines, env, labels, j + 1, acc \o e.bits)
 
 \* value of candidate m: the production evaluated with the parameters bound
 \* (locals shadow nothing else: symbols stay visible, the context is kept)
-EvalCand(P, m, env) ==
-    LET b == BindArgs(P, m, env, 1, <<>>) IN
+EvalCand(P, toks, m, env) ==
+    LET b == BindArgs(P, toks, m, env, 1, <<>>)
+        prod == P.rules[m.r].prod IN
     IF ~b.ok THEN b.v
-    ELSE Eval(P.rules[m.r].prod, [x \in DOMAIN env \cup DOMAIN b.loc |-> IF x \in DOMAIN b.loc THEN b.loc[x] ELSE env[x]]).v
+    ELSE IF prod.k = "asm"
+    THEN IF DepthOf(env) + 1 >= MaxEvalDepth THEN ErrV
+         ELSE IF env["$"].t # "int" THEN ErrV
+         ELSE AsmLines(P, toks, m, prod.lines, env,
+                       AsmLabelEnv(P, toks, m, prod.lines, env, env["$"].v * 8), 1, <<>>)
+    ELSE Eval(prod, [x \in DOMAIN env \cup DOMAIN b.loc \cup {"#depth"} |->
+                        IF x = "#depth" THEN IntV(DepthOf(env) + 1, -1)
+                        ELSE IF x \in DOMAIN b.loc THEN b.loc[x] ELSE env[x]]).v
 
 \* an instruction's encoding: [t |-> "ok", bits, s] | "err" | "big"
 \*   every candidate must yield a sized integer, a failed constraint or
 \*   nothing; among the sized ones the unique smallest wins
-Encoding(P, cands, env) ==
-    LET vals == {[m |-> m, x |-> AsInt(EvalCand(P, m, env))] : m \in cands}
+Encoding(P, toks, cands, env) ==
+    LET vals == {[m |-> m, x |-> AsInt(EvalCand(P, toks, m, env))] : m \in cands}
     IN  IF \E c \in vals : c.x.t = "big" THEN [t |-> "big", bits |-> <<>>, s |-> 0]
         ELSE IF \E c \in vals : c.x.t \in {"err", "unknown"} \/ (c.x.t \notin {"int", "wint", "failed"})
                                  \/ (c.x.t = "int" /\ c.x.s < 0) THEN [t |-> "err", bits |-> <<>>, s |-> 0]
@@ -226,8 +314,9 @@ ItemSizes(P, cands) ==
         LET it == P.items[i] IN
         CASE it.k = "instr" ->
                 IF cands[i] = {} THEN <<-1>>
-                ELSE LET ss == {MatchStaticSize(P, m) : m \in cands[i]} IN
-                     IF Cardinality(ss) = 1 /\ (CHOOSE x \in ss : TRUE) >= 0 THEN <<CHOOSE x \in ss : TRUE>> ELSE <<-1>>
+                ELSE LET ss == {MatchStaticSize(P, it.toks, m) : m \in cands[i]} IN
+                     IF -2 \in ss THEN <<-2>>
+                     ELSE IF Cardinality(ss) = 1 /\ (CHOOSE x \in ss : TRUE) >= 0 THEN <<CHOOSE x \in ss : TRUE>> ELSE <<-1>>
           [] it.k = "data" -> [j \in 1..Len(it.es) |-> IF it.w >= 0 THEN it.w ELSE StaticSize(it.es[j], <<>>)]
           [] OTHER -> <<0>>]
 
@@ -245,13 +334,21 @@ Positions(P, sizes, i, cur, acc) ==
                       [] OTHER -> cur
          IN Positions(P, sizes, i + 1, adv, Append(acc, cur))
 
+\* user-defined functions (P.fns: sequence of [name, params, body]) are visible everywhere
+Fns(P) == IF "fns" \in DOMAIN P THEN P.fns ELSE <<>>
+WithFns(P, env) ==
+    LET keys == {FnKey(Fns(P)[k].name) : k \in 1..Len(Fns(P))} IN
+    [x \in DOMAIN env \cup keys |->
+        IF x \in keys THEN LET f == Fns(P)[CHOOSE k \in 1..Len(Fns(P)) : FnKey(Fns(P)[k].name) = x] IN
+                            [t |-> "fn", params |-> f.params, body |-> f.body]
+        ELSE env[x]]
+
 \* environment at item i: labels, constants known so far, $ / pc, context
 EnvAt(P, d, pos, symv, i) ==
-    LET base == [x \in DOMAIN symv \cup {"$", "pc", "#ctx"} |->
+    WithFns(P, [x \in DOMAIN symv \cup {"$", "pc", "#ctx"} |->
                     IF x \in {"$", "pc"} THEN (IF pos[i] % 8 = 0 THEN IntV(pos[i] \div 8, -1) ELSE ErrV)
                     ELSE IF x = "#ctx" THEN CtxVal(d.ctxs[i])
-                    ELSE symv[x]]
-    IN base
+                    ELSE symv[x]])
 
 \* command-line defines: P.defines is a sequence of [name (full dotted name), v (value)]
 Defines(P) == IF "defines" \in DOMAIN P THEN P.defines ELSE <<>>
@@ -282,7 +379,9 @@ Assemble(P) ==
         THEN [t |-> "err", why |-> "no-match", out |-> <<>>, syms |-> <<>>]
         ELSE
     LET sizes == ItemSizes(P, cands) IN
-        IF \E i \in 1..Len(P.items) : \E j \in 1..Len(sizes[i]) : sizes[i][j] < 0
+        IF \E i \in 1..Len(P.items) : \E j \in 1..Len(sizes[i]) : sizes[i][j] = -2
+        THEN [t |-> "err", why |-> "macro-recursion", out |-> <<>>, syms |-> <<>>]
+        ELSE IF \E i \in 1..Len(P.items) : \E j \in 1..Len(sizes[i]) : sizes[i][j] < 0
         THEN [t |-> "skip", why |-> "not-size-static", out |-> <<>>, syms |-> <<>>]
         ELSE
     LET pos == Positions(P, sizes, 1, 0, <<>>)
@@ -305,7 +404,7 @@ Assemble(P) ==
     LET enc == [i \in 1..Len(P.items) |->
                   LET it == P.items[i] env == EnvAt(P, d, pos, symv, i) IN
                   CASE it.k = "instr" ->
-                          LET e == Encoding(P, cands[i], env) IN
+                          LET e == Encoding(P, it.toks, cands[i], env) IN
                           IF e.t # "ok" THEN <<[t |-> e.t, bits |-> <<>>]>>
                           ELSE IF e.s # sizes[i][1] THEN <<[t |-> "skip", bits |-> <<>>]>>
                           ELSE <<[t |-> "ok", bits |-> e.bits]>>
@@ -371,10 +470,10 @@ Assemble(P) ==
 (* program leaves the fragment this specification evaluates).              *)
 (***************************************************************************)
 ClaimEnv(P, d, claim, symv, i) ==
-    [x \in DOMAIN symv \cup {"$", "pc", "#ctx"} |->
+    WithFns(P, [x \in DOMAIN symv \cup {"$", "pc", "#ctx"} |->
         IF x \in {"$", "pc"} THEN (IF claim.pos[i] % 8 = 0 THEN IntV(claim.pos[i] \div 8, -1) ELSE ErrV)
         ELSE IF x = "#ctx" THEN CtxVal(d.ctxs[i])
-        ELSE symv[x]]
+        ELSE symv[x]])
 
 Certificate(P, claim) ==
     LET d == Declare(P.items, 1, <<>>, {}, <<>>, <<>>) IN
@@ -399,7 +498,7 @@ Certificate(P, claim) ==
             LET x == AsInt(Eval(P.items[i].e, ClaimEnv(P, d, claim, symv, i)).v) IN
             IF x.t = "big" THEN "skip" ELSE IF x.t = "int" /\ x.v = symv[d.names[i]].v THEN "" ELSE "bad"
         instrBad(i) ==
-            LET e == Encoding(P, cands[i], ClaimEnv(P, d, claim, symv, i)) IN
+            LET e == Encoding(P, P.items[i].toks, cands[i], ClaimEnv(P, d, claim, symv, i)) IN
             IF e.t = "big" THEN "skip"
             ELSE IF e.t # "ok" THEN "bad"
             ELSE IF e.s = claim.sizes[i][1] /\ e.bits = claim.bits[i][1] THEN "" ELSE "bad"
